@@ -272,6 +272,14 @@ function scopeInfo(ast) {
       case 'MethodDefinition': case 'PropertyDefinition': if (!node.computed && node.key.type === 'Identifier') info.props.push(node.key.name); break;
       case 'ImportSpecifier': info.imports.push(node.imported.name || node.imported.value); break;
       case 'ExportSpecifier': info.exports.push(node.exported.name || node.exported.value); break;
+      // the modules a module depends on (each import runs that module), and the kinds of binding taken from them
+      case 'ImportDeclaration': info.imports.push('from:' + node.source.value); break;
+      case 'ImportDefaultSpecifier': info.imports.push('default'); break;
+      case 'ImportNamespaceSpecifier': info.imports.push('*'); break;
+      case 'ExportAllDeclaration': info.exports.push('*from:' + node.source.value + (node.exported ? ' as ' + (node.exported.name || node.exported.value) : '')); break;
+      case 'ExportNamedDeclaration': if (node.source) info.exports.push('from:' + node.source.value); if (node.declaration) { if (node.declaration.id) info.exports.push(node.declaration.id.name); else if (node.declaration.declarations) for (const d of node.declaration.declarations) collectPattern(d.id, info.exports); } break;
+      case 'ExportDefaultDeclaration': info.exports.push('default'); break;
+      case 'ImportExpression': info.imports.push('dynamic'); break;
     }
   });
   for (const st of ast.body) {
